@@ -12,6 +12,7 @@ import Kio.Gen.DefSpec
 import Kio.Gen.Wire
 import Kio.Proofs.GenSpec
 import Kio.Model.Typing
+import Kio.Gen.Supported
 /-!
 Line-protocol driver (DESIGN §4.2): one request per line on stdin, one reply per line on stdout.
 Run with `lake env lean --run Driver.lean`.
@@ -215,6 +216,19 @@ def step (st : St) (line : String) : St × String :=
           | .ok gs => gs.all (fun g => g.schema.wf st.env)
           | .error _ => true
         s!"v{v}:{agrees}:{wf}")
+      (st, "ok " ++ " ".intercalate res)
+    | none => (st, "bad-def")
+  | "supported" :: toks =>
+    -- per version: is the definition in the supported subset, does generation succeed, is every
+    -- generated class coherent
+    match Gen.parseMsgDef toks with
+    | some d =>
+      let b := Generated.tables.builtins
+      let res := (Gen.versionsOf d).map (fun v =>
+        let (okm, wf) := match Gen.module d b v with
+          | .ok gs => (true, gs.all (fun g => g.schema.wf st.env))
+          | .error _ => (false, true)
+        s!"v{v}:{Gen.Supported d v}:{okm}:{wf}:{Gen.defaultsAgree d b v}")
       (st, "ok " ++ " ".intercalate res)
     | none => (st, "bad-def")
   | "defspec" :: ver :: toks =>
